@@ -50,7 +50,7 @@ theorem jumpIf_congr {c d : Bool} (h : c = d) (t pc : Nat) (r : Regs) (s : Stack
     jumpIf c t pc r s b = jumpIf d t pc r s b := by rw [h]
 
 /-- compileStructFieldEmpty's instruction decides exactly `isEmptyV` (the specification's omitempty rule) -/
-theorem emptyTest_step {t : GoType} {v : GoVal} (hC : Conf t v = true) (hnz : negZero v = false)
+theorem emptyTest_step {c0 : COpts} {t : GoType} {v : GoVal} (hC : Conf c0 t v = true) (hnz : negZero v = false)
     {mk : Nat → Instr} (hmk : emptyTest t = some mk) (tgt pc : Nat) (r : Regs) (s : Stack) (b : Bytes) (hg : r.p.get = some v) :
     step o (mk tgt) pc r s b = jumpIf (isEmptyV t v) tgt pc r s b := by
   cases t <;> simp only [emptyTest] at hmk <;> try (cases hmk; done)
@@ -82,7 +82,7 @@ theorem emptyTest_step {t : GoType} {v : GoVal} (hC : Conf t v = true) (hnz : ne
 
 
 /-- no test is compiled for arrays and structs: such a field is never empty unless it is the skipped `[0]T` -/
-theorem emptyTest_none {t : GoType} {v : GoVal} {f : Field} (hC : Conf t v = true) (hmk : emptyTest t = none)
+theorem emptyTest_none {c0 : COpts} {t : GoType} {v : GoVal} {f : Field} (hC : Conf c0 t v = true) (hmk : emptyTest t = none)
     (hskip : skipField f t = false) (hom : f.omitEmpty = true) : isEmptyV t v = false := by
   cases t <;> simp only [emptyTest] at hmk <;> try (cases hmk; done)
   all_goals (cases v <;> try (simp [Conf] at hC; done))
@@ -96,6 +96,7 @@ theorem emptyTest_none {t : GoType} {v : GoVal} {f : Field} (hC : Conf t v = tru
       simp [skipField, hom] at hskip
     | cons x r => simp [isEmptyV]
   case st.st => simp [isEmptyV]
+  case lib.st => simp [isEmptyV]
 
 /-! ### the resolver's field list is aligned with the declaration -/
 
@@ -161,7 +162,7 @@ theorem keepList_aligned {fs : List (String × Option Bytes × GoType)} {ks : Li
 
 /-! ### `,string` -/
 
-theorem quotedLeaf_eq {t : GoType} {v : GoVal} (addr : Bool) (hs : stringable t = true) (hn : isStrT t = false) (hC : Conf t v = true) :
+theorem quotedLeaf_eq {c0 : COpts} {t : GoType} {v : GoVal} (addr : Bool) (hs : stringable t = true) (hn : isStrT t = false) (hC : Conf c0 t v = true) :
     (quotedLeaf o t v).map render = (encV o addr t v).map (fun j => 34 :: (render j ++ [34])) := by
   cases t <;> simp only [stringable] at hs <;> try (cases hs; done)
   all_goals (cases v <;> try (simp [Conf] at hC; done))
@@ -208,5 +209,13 @@ theorem render_obj (ms : List (Bytes × JVal)) : render (.obj ms) = 123 :: (emit
   cases ms with
   | nil => simp [render, renderMembers, emitM]
   | cons m ms => simp [render, renderMembers_cons, emitM]
+
+
+/-- compileStructFieldOmitNilPtr's instruction (option EncOnlyOmitNull) decides nil-ness -/
+theorem nilTest_step {t : GoType} {v : GoVal} {mk : Nat → Instr} (hmk : nilTest t = some mk) (tgt pc : Nat) (r : Regs) (s : Stack) (b : Bytes)
+    (hg : r.p.get = some v) : step o (mk tgt) pc r s b = jumpIf (isNilV v) tgt pc r s b := by
+  cases t <;> simp only [nilTest] at hmk <;> try (cases hmk; done)
+  all_goals (injection hmk with hmk; subst hmk)
+  all_goals (cases v <;> simp [step, hg, isNilV, jumpIf])
 
 end SonicSpec.Ir
